@@ -494,7 +494,11 @@ def run(chk):
     for kind, o in objs:
         for ws in ((0, 1) if kind != "opt" else (1,)):
             saves.append((save_line(kind, o, ws), kind, o, ws))
-    save_lines = corpus("files.ops") + [s[0] for s in saves]
+    inv = P(False)
+    extra_saves = ["save param 1 I", "save param 0 I",
+                   "save model 1 " + model_tok([((b"a",), rand_param(rng, SHAPES[:4])), ((b"b", b"c"), inv)]),
+                   "save model 0 0", "save model 1 0"]
+    save_lines = corpus("files.ops") + extra_saves + [s[0] for s in saves]
     exe = build.build_harness("h_files")
     impl_raw, _ = vrun.run_impl(exe, [s[0] for s in saves])
     model_hex = vrun.run_model("files", [s[0] for s in saves])
